@@ -16,6 +16,13 @@ What a run does
      catalogue (see CATALOGUE): unitary preserved (1e-8 exact classes, 1e-6
      analytic, sqrt(2*threshold) numerical, or unchanged input), advertised
      postconditions, no exception on valid input.
+  4. (strengthening round, harness/c10_strong.py) role gates (MPRY/MPRZ with
+     the target at every position, controlled gates) at structured locations
+     and BLOCK VARIANTS (re-parameterised from outside, one CircuitGate object
+     used twice, nested, hand-built at unsorted locations) for every pass that
+     looks at locations or handles CircuitGate blocks; MGDPass on hand-built
+     multiplexors with its location re-ordering tied to the Lean model
+     Mux.moveLast; the catalogue audited against the live package.
 Passes that call the runtime run in-process on a sequential stand-in for
 `get_runtime()` (c10_lib.InProcRuntime); a small sample additionally goes
 through one real `Compiler(num_workers=4)` under the machine-wide runtime lock.
@@ -36,6 +43,7 @@ import numpy as np
 
 from harness.common import Check, InfraError, ddmin
 from harness import c10_lib as L
+from harness import c10_strong as S
 from harness.c10_lib import (
     Circuit, PassData, UnitaryMatrix, CircuitGate, ConstantUnitaryGate,
     VariableUnitaryGate, CNOTGate, CZGate, CYGate, CHGate, SwapGate, HGate,
@@ -70,6 +78,8 @@ CATALOGUE = {
                  'ExtractDiagonalPass(not exported)',
                  'GeneralSQDecomposition'],
     'decided elsewhere': {
+        # (ForEachBlockPass is ALSO run here, around catalogue passes on
+        #  re-parameterised blocks: the parameter hand-over to the body)
         'C11 control flow': ['DoWhileLoopPass', 'ForEachBlockPass',
                              'IfThenElsePass', 'WhileLoopPass', 'DoThenDecide',
                              'ParallelDo', 'predicates'],
@@ -113,10 +123,7 @@ LEAN_GATES = {
 PY2LEAN = {type(g).__name__: n for n, g in LEAN_GATES.items()}
 
 
-def circ_desc(c: Circuit) -> dict:
-    return {'radixes': list(c.radixes),
-            'ops': [[repr(op.gate), list(op.location),
-                     [float(x) for x in op.params]] for op in c]}
+circ_desc = L.circ_desc
 
 
 def rebuild(radixes, ops):
@@ -392,12 +399,21 @@ def rule_pass_cases(ck: Check, rules, n: int):
             w = ck.rng.choice([2, 2, 3, 4, 5])
             c = L.rand_circuit(ck.rng, w, ck.rng.randrange(1, 9),
                                extra=[src, src], p2=0.6)
+            if i % 3 == 1:
+                # role gates around the source, structured locations
+                c = S.role_circuit(ck.rng, w, ck.rng.randrange(1, 7))
+                for _ in range(ck.rng.randrange(1, 3)):
+                    c.append_gate(src, S.rand_loc(ck.rng, w, 2))
+                    g_ = ck.rng.choice(S.role_gates(w))
+                    c.append_gate(g_, S.rand_loc(ck.rng, w, g_.num_qudits),
+                                  S.rand_params(ck.rng, g_))
             if i % 7 == 0 and w >= 3:
                 c.append_gate(CCXGate(), ck.rng.sample(range(w), 3))
                 c.append_gate(src, ck.rng.sample(range(w), 2))
             k = sum(1 for o in c if type(o.gate) is type(src))
             ck.count(('rulepass', name, repr(L.struct_key(c))), k > 0)
             ck.bump('rule_sources_per_case', str(min(k, 4)))
+            ck.bump('rule_cases', name)
 
             def fails(ops, _p=p, _w=w, _src=src):
                 try:
@@ -455,6 +471,7 @@ def rule_pass_cases(ck: Check, rules, n: int):
                 d.gate_set = GateSet(gs)
             ck.count(('sq-decomp', label, opts, repr(gs), circ_desc(c)['ops']
                       .__repr__()))
+            ck.bump('rule_cases', label)
             try:
                 out, _ = run_pass(p, c, d)
             except Exception as e:
@@ -520,14 +537,23 @@ def sametl_line(flat_a, flat_b, n):
 
 def blocked_circuit(ck: Check, n: int):
     """A random circuit, partly folded into CircuitGates (random regions via
-    the public fold API through QuickPartitioner / manual folds)."""
+    the public fold API through QuickPartitioner / manual folds), or
+    assembled from hand-made blocks at unsorted locations; 40 % of the base
+    circuits contain role gates (MPRY/MPRZ with every target, controlled
+    gates, CCX) at structured locations."""
     from bqskit.passes import QuickPartitioner, ScanPartitioner
-    c = L.rand_circuit(ck.rng, n, ck.rng.randrange(2, 14))
-    mode = ck.rng.randrange(4)
+    mode = ck.rng.randrange(5)
+    if mode == 4:
+        return S.built_blocks(ck.rng, n, ck.rng.randrange(2, 8))
+    if ck.rng.random() < 0.4:
+        c = S.role_circuit(ck.rng, n, ck.rng.randrange(2, 12))
+    else:
+        c = L.rand_circuit(ck.rng, n, ck.rng.randrange(2, 14))
+    widest = max([o.num_qudits for o in c] + [1])
     if n >= 2 and mode in (1, 2):
         k = ck.rng.randrange(1 if mode == 1 else 2, min(n, 3) + 1)
         part = (QuickPartitioner if ck.rng.random() < 0.5
-                else ScanPartitioner)(max(k, 2) if n >= 2 else 1)
+                else ScanPartitioner)(max(k, 2, widest) if n >= 2 else 1)
         c, _ = run_pass(part, c)
     if mode == 3:
         from bqskit.passes import GroupSingleQuditGatePass
@@ -585,7 +611,12 @@ def structural_cases(ck: Check, n: int, have_driver: bool):
 
     for i in range(n):
         w = ck.rng.choice([1, 2, 3, 3, 4, 4, 5])
-        c = blocked_circuit(ck, w)
+        # every blocked circuit also re-parameterised from outside, with a
+        # shared CircuitGate object, nested (c10_strong)
+        vkind = S.VARIANTS[i % 4]
+        c = S.variant(ck.rng, blocked_circuit(ck, w), vkind)
+        ck.bump('block_variant', vkind + (
+            ':stale' if S.stale_blocks(c) else ''))
         # --- UnfoldPass / CompressPass
         out, _ = run('UnfoldPass', P.UnfoldPass(), (), c)
         if out is not None:
@@ -726,9 +757,9 @@ def structural_cases(ck: Check, n: int, have_driver: bool):
         out, _ = run('FillSingleQuditGatesPass',
                      P.FillSingleQuditGatesPass(), (), cu, tol=1e-7)
         if out is not None:
-            mq_in = [(repr(o.gate), tuple(o.location)) for o in cu
+            mq_in = [(L.gate_tag(o.gate), tuple(o.location)) for o in cu
                      if o.num_qudits > 1]
-            mq_out = [(repr(o.gate), tuple(o.location)) for o in out
+            mq_out = [(L.gate_tag(o.gate), tuple(o.location)) for o in out
                       if o.num_qudits > 1]
             ok = (timelines([(g, l, ()) for g, l, p in L.flatten(cu)
                              if len(l) > 1], w)
@@ -778,11 +809,14 @@ def structural_cases(ck: Check, n: int, have_driver: bool):
             ('ExtractMeasurements', ExtractMeasurements(), lambda d: True),
             ('RestoreMeasurements', RestoreMeasurements(), lambda d: True),
         ):
-            if i >= max(3, n // 4):
+            if i >= max(4, n // 4):
                 break
             src = c.copy()
             if pname == 'StructureAnalysisPass':
                 src = c          # documented to unfold inside blocks only
+                if S.block_depth(c) >= 2:
+                    S.structure_case(ck, c, vkind)   # own signature
+                    continue
             out, d = run(pname, p, (), src)
             if out is None:
                 continue
@@ -1153,6 +1187,24 @@ def num_case(spec):
                 p = P.IterativeScanningGateRemovalPass(
                     start_from_left=left, success_threshold=thr)
                 res['args'] = (left, thr)
+        elif kind in ('scanrole', 'scanblk'):
+            # removal on circuits with role gates (multiplexed / controlled
+            # rotations at structured locations) and on blocked circuits in
+            # every block variant (operation parameters != frozen ones)
+            n = rng.choice([2, 3])
+            thr = rng.choice([1e-8, 1e-6])
+            if kind == 'scanrole':
+                c = S.role_circuit(rng, n, rng.randrange(2, 6), 0.5)
+                vk = 'flat'
+            else:
+                vk = S.VARIANTS[seed % 4]
+                c = S.variant(rng, S.built_blocks(rng, n, rng.randrange(
+                    2, 5)), vk)
+            removal = True
+            cls = rng.choice([P.ScanningGateRemovalPass,
+                              P.TreeScanningGateRemovalPass])
+            p = cls(left, thr)
+            res['args'] = (cls.__name__, left, thr, vk)
         elif kind == 'exhaustive':
             n = rng.choice([1, 2])
             c = redundant_circuit(rng, n, rng.randrange(2, 4))
@@ -1269,7 +1321,8 @@ def num_case(spec):
 
 NUM_QUICK = {'scan': 24, 'treescan': 16, 'iterscan': 8, 'exhaustive': 8,
              'substitute': 10, 'rebase': 8, 'autorebase': 6, 'qsearch': 8,
-             'leap': 8, 'qfast': 4, 'qpredict': 6, 'pas': 6}
+             'leap': 8, 'qfast': 4, 'qpredict': 6, 'pas': 6, 'scanrole': 6,
+             'scanblk': 8}
 NUM_PASS = {'scan': 'ScanningGateRemovalPass',
             'treescan': 'TreeScanningGateRemovalPass',
             'iterscan': 'IterativeScanningGateRemovalPass',
@@ -1279,7 +1332,9 @@ NUM_PASS = {'scan': 'ScanningGateRemovalPass',
             'qsearch': 'QSearchSynthesisPass', 'leap': 'LEAPSynthesisPass',
             'qfast': 'QFASTDecompositionPass',
             'qpredict': 'QPredictDecompositionPass',
-            'pas': 'PermutationAwareSynthesisPass'}
+            'pas': 'PermutationAwareSynthesisPass',
+            'scanrole': 'ScanningGateRemovalPass',
+            'scanblk': 'ScanningGateRemovalPass'}
 
 
 def numerical_cases(ck: Check, thorough: bool):
@@ -1627,6 +1682,68 @@ def runtime_sample(ck: Check, thorough: bool):
 
 
 # ==========================================================================
+# 8. the catalogue against the live package
+def catalogue_audit(ck: Check):
+    """Every BasePass subclass defined under bqskit.passes must be listed in
+    CATALOGUE (decided here or by a named other property), and every class
+    decided here must have been executed by this run."""
+    import importlib
+    import inspect
+    import pkgutil
+    import re
+    import bqskit.passes as P
+    from bqskit.compiler.basepass import BasePass
+    found = {}
+    for m in pkgutil.walk_packages(P.__path__, 'bqskit.passes.'):
+        try:
+            mod = importlib.import_module(m.name)
+        except Exception:
+            continue
+        for name, o in vars(mod).items():
+            if inspect.isclass(o) and issubclass(o, BasePass) \
+                    and o.__module__ == m.name:
+                found[name] = m.name
+
+    def flat(x):
+        if isinstance(x, dict):
+            for v in x.values():
+                yield from flat(v)
+        else:
+            yield from x
+    listed = {n.split('(')[0] for n in flat(CATALOGUE)}
+    for name in sorted(set(found) - listed):
+        ck.violation(
+            f'catalogue:unlisted-pass:{name}', f'{found[name]}.{name} is a '
+            'pass class that the catalogue of C10 neither exercises nor '
+            'assigns to another property', {'class': name,
+                                            'module': found[name]},
+            found_input=False)
+    here = [n for k, v in CATALOGUE.items() if k != 'decided elsewhere'
+            for n in v if '(abstract)' not in n]
+    ran = {}
+    for key in ('rule_cases', 'structural_cases', 'analytic_cases',
+                'numerical_cases', 'block_cases', 'mgd_cases'):
+        for k, v in (ck.coverage.get(key) or {}).items():
+            for tok in re.split(r'[:\[\]+,]', k):
+                if tok in ('Restore',):
+                    tok = 'RestoreMeasurements'
+                ran[tok] = ran.get(tok, 0) + v
+    if ck.coverage.get('mgd_cases'):
+        ran['MGDPass'] = ran.get('MGDPass', 0) + sum(
+            v for k, v in ck.coverage['mgd_cases'].items() if ':w' in k)
+    table = {n: ran.get(n.split('(')[0], 0) for n in here}
+    table['ForEachBlockPass(C11; here: parameter hand-over to the body)'] = \
+        ran.get('ForEachBlockPass', 0)
+    ck.coverage['catalogue_exercised'] = table
+    for n, k in table.items():
+        if k == 0:
+            ck.violation(
+                f'catalogue:not-exercised:{n.split("(")[0]}', f'{n} is in '
+                'the C10 catalogue but was not executed by this run',
+                {'class': n}, found_input=False)
+
+
+# ==========================================================================
 def replay(ck: Check):
     """./check C10 --replay replays/C10/<h>.json: numerical cases are re-run
     from their (kind, seed); every other case is regenerated by re-running the
@@ -1713,8 +1830,12 @@ def run(ck: Check, replaying: bool = False):
                 'no longer check (regenerated rule data or model changed): '
                 + (ck.proof_failure or '')[-1500:], {'rules': [
                     r['name'] for r in rules]}, found_input=False)
-    structural_cases(ck, 30 * mult, have_driver)
+    structural_cases(ck, 40 * mult, have_driver)
     mark('structural')
+    S.mgd_cases(ck, have_driver, thorough)
+    mark('mgd')
+    S.block_pass_cases(ck, rules, 24 * mult, thorough)
+    mark('blocks')
     if have_driver:
         scripted_tie(ck, 60 * mult)
     mark('scripted')
@@ -1725,6 +1846,7 @@ def run(ck: Check, replaying: bool = False):
     if not replaying:
         runtime_sample(ck, thorough)
     mark('runtime_sample')
+    catalogue_audit(ck)
     ck.assumptions += [
         'numerical optimisers (Circuit.instantiate, ceres/qfactor/LBFGS) '
         'are abstracted to an arbitrary function returning parameters; '
